@@ -87,6 +87,8 @@ impl SubDeviceEeprom {
     requires self.wf()
     ensures r.wf(), r.reader == self.provider,
         r.byte_pos as int == (if 2 * word_addr > 0xffff { 0xffff } else { 2 * word_addr }),
+        // the window covers the requested byte length, rounded up to a whole word (clamped to the address space)
+        r.end as int == (if r.byte_pos + 2 * ((len_bytes + 1) / 2) > 0xffff { 0xffff } else { r.byte_pos + 2 * ((len_bytes + 1) / 2) }),
 @*/
 
 /*@fn file=src/subdevice/eeprom.rs impl="impl<P> SubDeviceEeprom<P>" name=category subst="<P>=>@@u16::from_le_bytes=>u16_from_le_bytes" props=C12,C13 __brk0="Result<Option<EepromRange>, Error>"
